@@ -167,7 +167,8 @@ def _feq(a, b, rel=1e-12):
     b = np.asarray(b, dtype=float).ravel()
     if a.shape != b.shape:
         return False
-    return bool(np.all((a == b) | (np.abs(a - b) <= rel * np.maximum(np.abs(a), np.abs(b)))))
+    both_nan = np.isnan(a) & np.isnan(b)
+    return bool(np.all(both_nan | (a == b) | (np.abs(a - b) <= rel * np.maximum(np.abs(a), np.abs(b)))))
 
 
 def _bnd_eq(a, b):
@@ -422,7 +423,7 @@ def _do_integral_scale(m, r, op, tags, rec, where):
         raise Violation(f"{where}: raised {type(e).__name__}: {e}", dict(tags, kind="exception"))
     nonlinear = r.cls in ref.TPL and r.opt.get("len_low", 0.0) > 0.0
     dflt = ref.RefModel(r.cls, dim=r.dim, latlon=r.latlon, temporal=r.temporal).bounds
-    custom = any(not _bnd_eq(r.bounds[k], dflt[k]) for k in ("len_scale", "anis", "var"))
+    custom = any(not _bnd_eq(r.bounds[k], dflt[k]) for k in r.bounds)
     if raised is not None:
         # documented: ValueError when the integral scale cannot be met (non-linear
         # TPL models) or when a value on the way leaves (custom) bounds
@@ -465,7 +466,13 @@ def _do_integral_scale(m, r, op, tags, rec, where):
         # heavy tails / near-nugget shapes: the quadrature oracle itself is not reliable
         rec.label("integral_scale_quad_unreliable")
         return False
-    tol = 1e-3 if nonlinear else 1e-6
+    if custom and any(not ref.in_bounds(v, dflt[k]) for k, v in r.opt.items()):
+        rec.label("integral_scale_optarg_outside_default_bounds")
+        return False
+    # accuracy budget: the library's default integral scale is a QUADPACK integral over
+    # [0, inf) which for compactly supported (kinked) correlations is only good to a few
+    # 1e-5 relative (measured: Linear 2.4e-5); accuracy itself is C03's business
+    tol = 1e-3 if nonlinear else 1e-4
     rec.discrepancy("integral_scale", abs(got - main) / main, tol)
     require(
         abs(got - main) <= tol * main,
